@@ -115,7 +115,7 @@ m = {
  "hooks": {
   "guard": "verif",
   "enable": "no hooks are committed to /repo: checks that need to own map iteration order or goroutine scheduling copy /repo's working tree to a scratch directory, rewrite it with mc/instr (range-over-map -> verifrt.Range, import sync -> vsync shim) and build that copy with -tags verif",
-  "baseline_off_cmd": "cd /repo && go test -vet=off -count=1 ./...",
+  "baseline_off_cmd": "cd /repo && GOFLAGS=-mod=mod GOPROXY=off GOSUMDB=off GOTOOLCHAIN=local go test -vet=off -count=1 ./...",
   "source_commits": [],
   "add_only": True,
  },
